@@ -55,13 +55,56 @@ ANCHORS = [
 def plan(tier):
     n = 2000 if tier == "quick" else 80000
     return [(c, n) for c in par.FAULT_CLASSES] + \
-        [("dense", 4 * n), ("fanout", n)]
+        [("dense", 4 * n), ("fanout", n), ("skinny", 2 * n)]
+
+
+def gen_skinny(rng, side):
+    """1xN / 2xN tori, where pairs of chips are joined by parallel links:
+    one-way breaks of ALL links of a pair (the ring still closes the other
+    way round) together with breaks of only one of the parallel links"""
+    n = rng.randint(5, max(6, side))
+    two = rng.random() < .4
+    flip = rng.random() < .5
+    dead = set()
+
+    def put(x, y, l):
+        # (x, y, l) given for an array 1 or 2 wide and n tall
+        if flip:
+            # mirror in the diagonal: E<->N, W<->S, NE and SW stay
+            x, y, l = y, x, {0: 2, 2: 0, 3: 5, 5: 3, 1: 1, 4: 4}[l]
+        dead.add((x, y, l))
+    ring_fwd, ring_back = (2, 1), (5, 4)        # parallel pairs along y
+    for _ in range(rng.randint(1, 2)):
+        y = rng.randrange(n)
+        for x in range(2 if two else 1):
+            if two:
+                # in a 2xN torus N is single but NE of one column and N of
+                # the other arrive at the same chip; break every way up
+                put(x, y, 2)
+                put(x, y, 1)
+            else:
+                for l in ring_fwd:
+                    put(x, y, l)
+    for _ in range(rng.randint(1, 4)):
+        y = rng.randrange(n)
+        x = rng.randrange(2 if two else 1)
+        put(x, y, rng.choice(ring_fwd + ring_back + ((0, 3) if two else ())))
+    if two and rng.random() < .5:
+        y = rng.randrange(n)
+        put(0, y, 0)
+        put(0, y, 3)                # both parallel links across, one way
+    w, h = (2 if two else 1), n
+    if flip:
+        w, h = h, w
+    return dict(w=w, h=h, dead_chips=[], dead_links=sorted(dead))
 
 
 def gen(cls, idx, rng, tier):
     side = 12 if tier == "quick" else 16
     if cls == "fanout":
         m = par.gen_faults(rng, rng.choice(["sparse", "dense", "none"]), side)
+    elif cls == "skinny":
+        m = gen_skinny(rng, side)
     else:
         m = par.gen_faults(rng, cls, side)
     chips = par.live_chips(m)
@@ -84,6 +127,8 @@ def gen(cls, idx, rng, tier):
     nets = []
     for _ in range(rng.randint(1, 3)):
         fan = rng.randint(1, 8) if cls != "fanout" else rng.randint(10, 60)
+        if cls == "skinny":
+            fan = rng.randint(4, 20)
         sinks = [rng.choice(place)[0] for _ in range(fan)]
         if rng.random() < .3:
             sinks.append(sinks[0])          # duplicated sink
